@@ -527,8 +527,95 @@ def r_conv(ctx):
                 t = f.term(r.stmt.value, r)
                 conds = ctx.conds(f, r)
                 tabs.append((r, t, conds))
-            run.check(len(rets) == 3, 'R-CONV', f, 'three-length-arms', f.node.lineno, 'equal / shorter / longer arms',
-                      'number_to_bit has %d return arms' % len(rets), nontrivial=False)
+            # the LENGTH of what each return gives, evaluated for digit counts below / at / above the width: always bit_length
+            digit_names = {d2.name for x2 in f.nodes if x2.loops for d2 in x2.defs
+                           if d2.kind == 'mutate' and isinstance(d2.extra, ast.Attribute) and d2.extra.attr in ('append', 'insert')}
+
+            def is_digits(x):
+                return x[0] == 'v' and x[1] in digit_names
+
+            def length_of(x, L, W):
+                def env(y):
+                    if is_call(y, 'builtins.len') and len(y[2]) == 1:
+                        n0 = length_of(y[2][0], L, W)
+                        return UNKNOWN if n0 is None else n0
+                    return W if y == width else UNKNOWN
+                if is_digits(x):
+                    return L
+                if x[0] == 'list':
+                    return len(x) - 1
+                if is_call(x, 'builtins.list') and len(x[2]) == 1:
+                    return length_of(x[2][0], L, W)
+                if x[0] == 'bin' and x[1] == '+':
+                    a, b = length_of(x[2], L, W), length_of(x[3], L, W)
+                    return None if a is None or b is None else a + b
+                if x[0] == 'bin' and x[1] == '*':
+                    for lst, cnt in ((x[2], x[3]), (x[3], x[2])):
+                        if lst[0] == 'list':
+                            c = feval(cnt, env)
+                            if c is UNKNOWN or not isinstance(c, int):
+                                return None
+                            return (len(lst) - 1) * max(c, 0)
+                    return None
+                if x[0] == 'sub' and x[2][0] == 'slice':
+                    base = length_of(x[1], L, W)
+                    if base is None:
+                        return None
+                    bounds = []
+                    for b in x[2][1:4]:
+                        if b == ('c', None):
+                            bounds.append(None)
+                        else:
+                            v = feval(b, env)
+                            if v is UNKNOWN or not isinstance(v, int):
+                                return None
+                            bounds.append(v)
+                    try:
+                        return len(range(*slice(*bounds).indices(base)))
+                    except Exception:
+                        return None
+                if x[0] == 'ifexp':
+                    c = feval(x[1], env)
+                    if c is UNKNOWN:
+                        return None
+                    return length_of(x[2] if c else x[3], L, W)
+                return None
+            verdicts = []
+            for r, t, conds in tabs:
+                for L, W in ((2, 5), (5, 5), (7, 5), (0, 3), (3, 0), (0, 0), (1, 1)):
+                    def env(y, L=L, W=W):
+                        if is_call(y, 'builtins.len') and len(y[2]) == 1:
+                            n0 = length_of(y[2][0], L, W)
+                            return UNKNOWN if n0 is None else n0
+                        return W if y == width else UNKNOWN
+                    feas, unclear_cond = True, False
+                    for a, p in conds:
+                        v = feval(a, env)
+                        if v is not UNKNOWN and bool(v) != p:
+                            feas = False
+                        elif v is UNKNOWN and any(y == width or is_call(y, 'builtins.len') for y in walk_term(a)):
+                            unclear_cond = True     # a condition on the sizes that cannot be evaluated: this case is not decided
+                    if not feas:
+                        continue
+                    n_ = None if unclear_cond else length_of(t, L, W)
+                    verdicts.append((r, L, W, n_))
+            wrong = [v for v in verdicts if v[3] is not None and v[3] != v[2]]
+            unknown = [v for v in verdicts if v[3] is None]
+            if wrong:
+                r, L, W, n_ = wrong[0]
+                run.refute('R-CONV', f, 'result-has-bit_length-items', r.lineno,
+                           'number_to_bit returns %d items for a number of %d binary digits and bit_length = %d (return at line %d: %s): '
+                           'the result always has exactly bit_length items' % (n_, L, W, r.lineno, show(f.term(r.stmt.value, r))[:60]),
+                           inputs='numbers with %s digits than the width' % ('more' if L > W else 'fewer'))
+            elif unknown or not verdicts:
+                run.undecided('R-CONV', f, 'result-has-bit_length-items', f.node.lineno,
+                              'the length of the returned list %s is not evaluable' % (show(unknown[0][0].stmt.value and
+                                                                                            f.term(unknown[0][0].stmt.value, unknown[0][0]))[:60]
+                                                                                       if unknown else ''))
+            else:
+                run.ok('R-CONV', f, 'result-has-bit_length-items', f.node.lineno,
+                       'every return yields bit_length items for digit counts below, at and above the width (%d cases)' % len(verdicts),
+                       nontrivial=False)
             for r, t, conds in tabs:
                 if t[0] == 'sub' and t[2][0] == 'slice' and t[2][3] == NONE and (t[2][1] != NONE or t[2][2] != NONE):
                     run.check(t[2] == ('slice', NONE, width, NONE), 'R-CONV', f, 'longer-arm:exact-length', r.lineno,
@@ -799,6 +886,7 @@ def r_pair(ctx):
     key_del = [(nd, t) for nd, t in dels if t[0] == 'sub' and t[1][0] == 'v' and t[1][1] == 'latter_map']
     ok = False
     recognised = False
+    unclear_target = False
     why = 'no deletion of an element of latter_map[u]'
     # latter_map[u].remove(successor)
     removes = []
@@ -846,11 +934,18 @@ def r_pair(ctx):
                 good = strip_int(call_arg(tgt[1], 0, 'current')) == strip_int(u) and strip_int(tgt[2]) == strip_int(j) and \
                     (Kt is None or call_arg(tgt[1], 1, 'observed_length') == Kt)
                 recognised = True
+            if not good:
+                from .graph import successor_verdict
+                verdict_, cex_ = successor_verdict(idx[2][0], u, j, Kt)
+                if verdict_ is True:
+                    good = recognised = True
+                elif verdict_ is None and not any(x[0] == 'bin' and x[1] in ('%', '*') for x in walk_term(tgt)):
+                    unclear_target = True       # not an arithmetic form at all (a call, a look-up): not decided here
             ok = good
             why = 'the deleted element is %s, not the successor (u*4 + j) mod 4^K of the cleared entry [u, j]' % show(tgt)[:100]
         else:
             why = 'the deleted position is %s, not the position of the removed successor' % show(idx)[:80]
-    _tri(run, ok, bool(arc_del) or not dels, 'R-PAIR', f, 'same-arc-in-both-views', arc_del[0][0].lineno if arc_del else f.node.lineno,
+    _tri(run, ok, (bool(arc_del) or not dels) and not unclear_target, 'R-PAIR', f, 'same-arc-in-both-views', arc_del[0][0].lineno if arc_del else f.node.lineno,
               'the latter map loses the successor of the cleared accessor entry', 'remove_nasty_arc: ' + why,
               inputs='every arc removal: the two views describe different graphs afterwards')
     okk = False
